@@ -83,7 +83,7 @@ impl Property for C38 {
     fn runs(&self, tier: Tier) -> u64 {
         match tier {
             Tier::Quick => 48,
-            Tier::Thorough => 48 * 40,
+            Tier::Thorough => 48 * 60,
         }
     }
 
